@@ -6,11 +6,86 @@
 //! run's PRNG and installed *before* the thread touches any `HashMap`; threads run one at a time.
 //! When no entropy is installed (main thread, harness code) the real system call is made.
 
-use std::cell::Cell;
-use std::ffi::{c_long, c_uint, c_void};
+use std::cell::{Cell, RefCell};
+use std::ffi::{c_char, c_long, c_uint, c_void, CStr};
 
 extern "C" {
     fn syscall(num: c_long, ...) -> c_long;
+    fn dlsym(handle: *mut c_void, symbol: *const c_char) -> *mut c_void;
+}
+
+// ---------------------------------------------------------------------------------------------
+// environment variables are an input too (seam S1b): `getenv` is interposed like `getrandom`
+// ---------------------------------------------------------------------------------------------
+
+thread_local! {
+    static ENV_OVERRIDE: Cell<bool> = const { Cell::new(false) };
+    static ENV_SEEN: RefCell<Vec<String>> = const { RefCell::new(Vec::new()) };
+}
+
+/// what an "env-" replica sees instead of the (unset) real variables
+const ENV_TABLE: &[(&str, &CStr)] = &[
+    ("LANG", c"tr_TR.UTF-8"),
+    ("LC_ALL", c"tr_TR.UTF-8"),
+    ("LC_COLLATE", c"tr_TR.UTF-8"),
+    ("LC_CTYPE", c"tr_TR.UTF-8"),
+    ("LANGUAGE", c"tr"),
+    ("TZ", c"Asia/Tokyo"),
+    ("HOME", c"/nonexistent"),
+    ("PWD", c"/"),
+    ("TMPDIR", c"/nonexistent"),
+    ("USER", c"somebody"),
+    ("RUST_LOG", c"trace"),
+    ("COLUMNS", c"20"),
+    ("NO_COLOR", c"1"),
+];
+/// read by std itself on its own behalf
+const ENV_IGNORED: &[&str] = &["RUST_BACKTRACE", "RUST_LIB_BACKTRACE", "RUST_MIN_STACK"];
+
+/// # Safety
+/// libc contract of getenv(3)
+#[no_mangle]
+pub unsafe extern "C" fn getenv(name: *const c_char) -> *mut c_char {
+    static REAL: std::sync::atomic::AtomicUsize = std::sync::atomic::AtomicUsize::new(0);
+    let mut real = REAL.load(std::sync::atomic::Ordering::Relaxed);
+    if real == 0 {
+        // RTLD_NEXT
+        real = dlsym(usize::MAX as *mut c_void, c"getenv".as_ptr()) as usize;
+        REAL.store(real, std::sync::atomic::Ordering::Relaxed);
+    }
+    if !name.is_null() {
+        let recording = ENTROPY.try_with(|e| e.get().is_some()).unwrap_or(false);
+        if recording {
+            if let Ok(n) = CStr::from_ptr(name).to_str() {
+                if !ENV_IGNORED.contains(&n) && !n.starts_with("MALLOC_") && !n.starts_with("GLIBC_") {
+                    let _ = ENV_SEEN.try_with(|s| {
+                        if let Ok(mut v) = s.try_borrow_mut() {
+                            if !v.iter().any(|x| x == n) {
+                                v.push(n.to_string());
+                            }
+                        }
+                    });
+                    if ENV_OVERRIDE.try_with(|o| o.get()).unwrap_or(false) {
+                        if let Some((_, v)) = ENV_TABLE.iter().find(|(k, _)| *k == n) {
+                            return v.as_ptr() as *mut c_char;
+                        }
+                        // a variable nobody thought of: set, to a harmless-looking value
+                        return c"1".as_ptr() as *mut c_char;
+                    }
+                }
+            }
+        }
+    }
+    if real == 0 {
+        return std::ptr::null_mut();
+    }
+    let f: unsafe extern "C" fn(*const c_char) -> *mut c_char = std::mem::transmute(real);
+    f(name)
+}
+
+/// names of environment variables the code under test asked for on this thread
+pub fn env_seen() -> Vec<String> {
+    ENV_SEEN.with(|s| s.borrow().clone())
 }
 
 #[cfg(target_arch = "x86_64")]
@@ -46,14 +121,22 @@ pub unsafe extern "C" fn getrandom(buf: *mut c_void, len: usize, flags: c_uint) 
 
 /// Run `f` on a fresh thread whose `RandomState` keys derive from `entropy`.
 /// Returns `Err(payload)` if the thread panicked outside of `f`'s own `catch_unwind`s.
-pub fn with_entropy<T: Send + 'static>(
+pub fn with_entropy<T: Send + 'static>(entropy: u128, f: impl FnOnce() -> T + Send + 'static) -> Result<(T, u64), String> {
+    with_env(entropy, false, f).map(|(r, c, _)| (r, c))
+}
+
+/// like `with_entropy`; with `env_override` the thread also sees a populated environment (ENV_TABLE).
+/// Returns the result, the number of getrandom calls and the environment variable names that were read.
+pub fn with_env<T: Send + 'static>(
     entropy: u128,
+    env_override: bool,
     f: impl FnOnce() -> T + Send + 'static,
-) -> Result<(T, u64), String> {
+) -> Result<(T, u64, Vec<String>), String> {
     let h = std::thread::Builder::new()
         .name("replica".into())
         .spawn(move || {
             ENTROPY.with(|e| e.set(Some(entropy)));
+            ENV_OVERRIDE.with(|o| o.set(env_override));
             // heap perturbation: a replica-specific pattern of live allocations, so that twins with different
             // entropy also see different allocation addresses (not controlled, only varied; C05 names them)
             let mut pad: Vec<Vec<u8>> = Vec::new();
@@ -67,7 +150,7 @@ pub fn with_entropy<T: Send + 'static>(
             let r = f();
             drop(pad);
             let calls = CALLS.with(|c| c.get());
-            (r, calls)
+            (r, calls, env_seen())
         })
         .map_err(|e| format!("spawn failed: {e}"))?;
     h.join().map_err(|p| crate::panic_text(&p))
